@@ -20,7 +20,9 @@ RULE = ('stream adj: NasuWaveguide.adj_scan_order for every adj_scan in 1..64 (e
         'configurations; the export directory listing must be exactly the model\'s file name, and the interpreted trace of the file '
         '(loops unrolled by the reference controller) must equal the trace of the model session (exact regime) or agree within '
         'the transformation tolerance; independently the number of shutter-open moves must be scans x (open moves of one pass), '
-        'summed over the structures.  non-trivial = >= 2 structures or a scan / adj_scan count >= 2.')
+        'summed over the structures.  In 30 % of the cases the structures are first exported (and sometimes plotted), then their scan / '
+        'adj_scan settings are changed and they are exported again: the second file is the one judged.  '
+        'non-trivial = >= 2 structures or a scan / adj_scan count >= 2.')
 ASSUMPTIONS = [
     'float32 rounding of points + k*shift in the Nasu writer is exact for the dyadic regime and within tolerance otherwise',
     'the writers are observed through the files they write in a scratch directory (removed afterwards)',
@@ -137,12 +139,40 @@ def run_writers(ctx):
                 mobjs.append({'pts': _pts(mk), 'scan': scan})
                 n_open_expected += scan * _open_moves(mk)
             writer_cls, arg = MarkerWriter, 'mk_list'
+        reuse = bool(objs) and rng.random() < 0.3
         with gcommon.Scratch() as d, core.quiet():
             wr = writer_cls(**{arg: list(objs)}, **cfg)
             mcfg = gcommon.model_cfg(wr)
             wr.pgm(verbose=False)
+            if reuse:
+                # the structures are used once (exported, plotted), then their repetition settings are changed and they are
+                # exported again: the second file must be the one of the new settings
+                if rng.random() < 0.5:
+                    wr.plot2d()
+                for p in list(d.rglob('*')):
+                    if p.is_file():
+                        p.unlink()
+                mobjs, n_open_expected = [], 0
+                for o in objs:
+                    grp = o if isinstance(o, list) else [o]
+                    if kind == 'nasu':
+                        o.adj_scan = rng.randint(1, 9)
+                        mobjs.append({'pts': _pts(o), 'adj_scan': o.adj_scan, 'shift': [q(v) for v in o.adj_scan_shift]})
+                        n_open_expected += o.adj_scan * _open_moves(o)
+                    else:
+                        scan2 = rng.randint(1, 6)
+                        for w in grp:
+                            w.scan = scan2
+                        if kind == 'wg':
+                            mobjs.append([{'pts': _pts(w), 'scan': w.scan} for w in grp])
+                        else:
+                            mobjs.append({'pts': _pts(o), 'scan': o.scan})
+                        n_open_expected += scan2 * sum(_open_moves(w) for w in grp)
+                wr = writer_cls(**{arg: list(objs)}, **cfg)
+                wr.pgm(verbose=False)
             listing = sorted(str(p.relative_to(d)) for p in d.rglob('*') if p.is_file())
             text = (d / listing[0]).read_text() if listing else ''
+        ctx.count('writers.history', 'changed-after-first-export' if reuse else 'fresh')
         exact_case = exact and cfg['n_glass'] == cfg['n_environment'] * 1 or (exact and all(_dyadic(o) for o in mobjs))
         items.append((kind, cfg, mobjs, listing, exact_case, n_open_expected))
         reqs.append({'op': 'ctl.run', 'text': text})
